@@ -169,3 +169,61 @@ func c13CommandLineOrders(ctx *core.Ctx, pinned string, p *dsl.Program) int64 {
 	}
 	return runs
 }
+
+// c13Locations: "independent of process and run" includes where the command is run. The same command line
+// (absolute input path; output directory "." and "out") is run from two working directories with different
+// names, for a program with and without the Go/Java package options (a default derived from a path would show
+// only where the option is absent). Oracle: identical files.
+func c13Locations(ctx *core.Ctx, pinned string) int64 {
+	var runs int64
+	base := dsl.P5()[0]
+	bare := base.Clone()
+	bare.Opts = nil
+	bare.Name = base.Name + " (no package options)"
+	for _, p := range []*dsl.Program{base, bare} {
+		text := p.Text()
+		if _, err := applyHistory(ctx, text, nil); err != nil {
+			continue
+		}
+		root := ctx.TempPath(".loc")
+		os.MkdirAll(root, 0o755)
+		file := filepath.Join(root, "in.dsl")
+		os.WriteFile(file, []byte(text), 0o644)
+		for _, l := range api.Langs {
+			for _, out := range []string{".", "out"} {
+				var first map[string]string
+				ok := true
+				for _, wd := range []string{"alpha", "beta-two", "Gamma_3"} {
+					cwd := filepath.Join(root, l+"_"+strings.Trim(out, "."), wd)
+					os.MkdirAll(cwd, 0o755)
+					r := runCLI(cwd, 120*time.Second, pinned, "compile", "-f", file, langFlag[l], out)
+					runs++
+					if r.crashed || r.exit != 0 {
+						ok = false
+						break
+					}
+					got := dirFiles(filepath.Join(cwd, out))
+					if first == nil {
+						first = got
+						continue
+					}
+					same := len(got) == len(first)
+					for n, b := range first {
+						if got[n] != b {
+							same = false
+						}
+					}
+					if !same {
+						ctx.Report("location|the "+l+" files depend on the name of the working directory|output directory "+out+"|"+progName(p.Name),
+							fmt.Sprintf("program %s: `compile -f <abs> %s %s` run from directories named alpha and %s gives different files", p.Name, langFlag[l], out, wd),
+							map[string]any{"name": p.Name, "text": text, "lang": l})
+						break
+					}
+				}
+				_ = ok
+			}
+		}
+		os.RemoveAll(root)
+	}
+	return runs
+}
